@@ -214,6 +214,9 @@ def load_known():
 def signature(v):
     d = v.get("definition", {}).get("source") if isinstance(v.get("definition"), dict) else v.get("def_source", "")
     key = "|".join([str(v.get("property")), str(v.get("rule")), str(d), str(v.get("input_hex", v.get("witness_hex", ""))), str(v.get("config", ""))])
+    if v.get("input") and not d:
+        # CLI findings (C16 / C17) carry the input file instead of a definition
+        key += "|" + str(v["input"])
     return hashlib.sha1(key.encode()).hexdigest()[:12]
 
 
